@@ -17,10 +17,10 @@ CHECKS.update({
  "C06": ("3/C06", "Same exhaustive history space as C05, x 5 listener configurations; per-datagram listener contract checked with cache snapshots taken inside the callbacks against the s.10 model.",
          "Trusted: the s.10 reference model; the acting listener acts during the last datagram of each history (every prefix is itself explored)."),
  "C14": ("3/C14", "The C01 message spaces; every emitted datagram sequence is checked for the 8966/1460 limits, exact header counts (strict decoder consumes the datagram exactly), exactly-once placement per section, and TC-on-all-but-last for queries only.",
-         "Trusted: /verif/mc/wire.py. Entries that do not fit a datagram alone are outside the quantifier."),
- "C19": ("3/C19", "Full product of a rule-violation grammar for names in both strict modes plus all strings of length <= 5-7 over a 5-character alphabet before 4 suffixes, against an independent three-valued validator; all small property dictionaries against an independent RFC 6763 s.6 parser.",
+         "Trusted: /verif/mc/wire.py. Entries that do not fit a datagram alone are outside the quantifier: they are generated too (up to 40 bytes beyond, 9500, 20000, 65536) but judged only for 'no datagram over 8966 bytes, every datagram well-formed'."),
+ "C19": ("3/C19", "Full product of a rule-violation grammar for names in both strict modes plus all strings of length <= 5-7 over a 5-character alphabet before 4 suffixes and every non-ASCII code point (quick: of the BMP) inside three service labels, against an independent three-valued validator; all small property dictionaries against an independent RFC 6763 s.6 parser.",
          "Trusted: /verif/mc/models/name_model.py (UNSPECIFIED where the documented rules do not decide)."),
- "C20": ("3/C20", "All ordered pairs over a vocabulary of ~1400 record/question objects varying one identity field at a time; ==, !=, hash, set/dict, DNSRRSet and DNSCache lookups against an identity-tuple model.",
+ "C20": ("3/C20", "All ordered pairs over a vocabulary of ~3000 record/question objects varying one identity field at a time (names incl. pairs that only full case folding would merge); ==, !=, hash, set/dict, DNSRRSet and DNSCache lookups (by record and by name) against an identity-tuple model.",
          "Trusted: the identity model as read from the property statement."),
 })
 CHECKS.update({
@@ -32,7 +32,7 @@ CHECKS.update({
 CHECKS.update({
  "C08": ("3/C08", "Full product grid (9 query kinds x arrival offsets 1..1199 ms before the withdrawal x jitter x 3 registry shapes x unregister/async_close/sync close x second query) executed on a real instance; the withdrawing host's trace must show exactly three complete goodbyes 125 ms apart and no withdrawn record with TTL>0 afterwards for 6 s.",
          "Trusted: virtual loop/link; API calls are sequential (operation model of the statement); answers between the first and third goodbye are not judged."),
- "C10": ("3/C10", "The complete tree of learn/refresh/re-case/withdraw histories (depth 2, thorough 3) x gap menu around 0/1 s/20 s/40 s and 75/85/95/100 % of the TTLs x browser delay 1/10/60 s x forced question types, each run to expiry of every record on a real AsyncServiceBrowser; query-trace oracle for start-up schedule, refresh windows, rate limit, unexplained queries, liveness and armed timer.",
+ "C10": ("3/C10", "The complete tree of learn/refresh/re-case/withdraw histories (depth 2, thorough 3) x gap menu around 0/1 s/20 s/40 s and 75/85/95/100 % of the TTLs x browser delay 1/10/60 s x forced question types, plus re-announcements whose 75 % instant coincides within a delay with the armed 75/85/95 % query, each run to expiry of every record on a real AsyncServiceBrowser; query-trace oracle for start-up schedule, refresh windows, rate limit, unexplained queries, liveness and armed timer.",
          "Trusted: window tolerances listed in the evidence assumptions (one delay early, accumulated lateness)."),
 })
 CHECKS.update({
@@ -44,21 +44,21 @@ CHECKS.update({
 CHECKS.update({
  "C13": ("3/C13", "Full product per family on real instances: browser start-up queries x caches of 0..300 pointer records in TTL classes at/around half TTL, expired-unpurged and floored x forced types; a second asker (own browser or question heard as responder) at gaps 0/1/500/998/999/1000/1001/5000 ms x known-answer relation x question type; service-info lookups x 27 cache states x 4 timeouts x forced types x jitter; oracle on decoded query datagrams (questions, QU bits, known answers with remaining TTL, TC bits, spacing).",
          "Trusted: the in-check model of which cached records have more than half their TTL left; remaining TTL compared with one second tolerance."),
- "C18": ("3/C18", "Full product grid: 256 cache states (SRV/TXT/A/AAAA in absent/fresh/stale/expired-unpurged) x 3 timeouts x arrival instant of each missing record (never, 50, 250, timeout-1, timeout, timeout+1 ms) x forced type on a real AsyncServiceInfo.async_request; return time, success iff SRV and an unexpired address were known in time, field provenance (expired copies carry different rdata), query trace.",
+ "C18": ("3/C18", "Full product grid: 256 cache states (SRV/TXT/A/AAAA in absent/fresh/stale/expired-unpurged) x 3 timeouts x arrival instant of each missing record (never, 50, 250, timeout-1, timeout, timeout+1 ms) x forced type, plus re-used lookup objects, objects that already know the host, and lookups preceded by another lookup of the same instance (question history populated), on a real AsyncServiceInfo.async_request; return time, success iff SRV and an unexpired address were known in time, field provenance (expired copies carry different rdata), query trace.",
          "Trusted: missing records arrive one per datagram; equality with the deadline accepts both results; cache-flush grace second as in C06."),
 })
 CHECKS.update({
  "C16": ("3/C16", "The complete tree of histories of <= 2 (thorough 3) datagrams over a 16-datagram query/response alphabet x gaps 1/500/1001 ms x three ages of the host's own records x jitter low/high; every history is executed three times in identical worlds (plain / QU-free datagrams doubled / all doubled) and traces and callback logs are compared exactly.",
          "Trusted: constant jitter per triple. One open known finding (duplicated QU queries are processed twice) is reported as KNOWN-FINDING; any other difference is a violation."),
- "C17": ("3/C17", "For three busy scenarios the reference run yields every instant at which a timer or datagram was processed; close is requested at each of them and 1 ms before/after, via async_close and via Zeroconf.close from outside the loop; then a second close, 3 h of virtual time and 9 rounds of fresh traffic. Oracle: goodbyes for everything registered, sockets closed, no datagram, no listener/browser callback, no exception afterwards.",
+ "C17": ("3/C17", "For three busy scenarios the reference run yields every instant at which a timer or datagram was processed; close is requested at each of them and 1 ms before/after, on a 25 ms grid while registrations are in flight and 0..11 loop iterations after construction, via async_close and via Zeroconf.close from outside the loop; then a second close, 3 h of virtual time and 9 rounds of fresh traffic. Oracle: goodbyes for everything registered, sockets closed, no datagram, no listener/browser callback, no exception afterwards.",
          "Trusted: caller-thread seam for the sync API; AsyncServiceBrowser only (no OS threads)."),
 })
 CHECKS.update({
  "C07": ("3/C07", "Iterative deviation bounding on 2- and 3-host scenarios of real instances over the simulated link: every (datagram, receiver) delivery chooses among 1 ms / 100 ms / duplicate / drop (one drop per execution), every library jitter draw between low and high; all executions with <= 2 (thorough <= 3 on the 2-host scenarios) non-default choices; browser live sets must equal what is registered 15 s after each change and lookups made from add_service must resolve the advertised data.",
          "Trusted: virtual link (fixed 100 us loop-back); API calls sequential per instance; reported deviation bound completed."),
- "C09": ("3/C09", "Full product grid: conflicting pointer record at -100..500 ms around the three probe instants (incl. 174/175/176 and 349/350/351) x renaming allowed or not x pre-populated chains of taken '-N' names x second conflict during the renamed cycle x address mix x custom TTLs; the conflict is delivered by a scripted peer or by a second real instance owning the name behind a link with one-way delay 1/50/100/150 ms; probe/announcement schedule and content, exception or final name, no record of the conflicting name ever sent.",
+ "C09": ("3/C09", "Full product grid: conflicting pointer record at -100..500 ms around the three probe instants (incl. 174/175/176 and 349/350/351) x renaming allowed or not x pre-populated chains of taken '-N' names x second conflict during the renamed cycle x address mix x custom TTLs x description objects used before (records already built, registered and withdrawn) x ttl= argument; the conflict is delivered by a scripted peer or by a second real instance owning the name behind a link with one-way delay 1/50/100/150 ms; probe/announcement schedule and content, exception or final name, no record of the conflicting name ever sent.",
          "Trusted: equality with the last probe check accepts both outcomes; the host answering its own looped-back third probe is tolerated."),
- "C15": ("3/C15", "Adversarial corpora (all single edits of seed messages, compression graphs, chain/stack families, oversize datagrams, every echo-hazard label length 1..63 x 5 fill bytes in legacy-unicast queries) delivered to a busy real instance: fresh world per datagram from 4 source tuples, streams of 50 per world, all ordered pairs of class representatives; afterwards the loop's exception handler must be empty, a canary query answered and a canary announcement delivered to the browser.",
+ "C15": ("3/C15", "Adversarial corpora (all single edits of seed messages, compression graphs, chain/stack families, oversize datagrams, every echo-hazard label length 1..63 x 5 fill bytes in legacy-unicast queries, responses whose rdata names cannot be re-encoded) delivered to a busy real instance: fresh world per datagram from 4 source tuples, streams of 50 per world, all ordered pairs of class representatives, and a waiter (lookup / registration) cancelled 0..2 loop iterations before or after a valid datagram; afterwards the loop's exception handler must be empty, a canary query answered and a canary announcement delivered to the browser.",
          "Trusted: exceptions leaving datagram_received are reported to the loop handler like a selector transport does; random byte strings are not sampled."),
 })
 NOT_YET = {}
